@@ -67,11 +67,15 @@ StringsOK(c) ==
 \* the time token gives back the record's own time (c.in = its RFC 3339 text, formatted by the harness)
 TimeOK(c) == LET toks == Tokenize(c.tail) IN
   toks # BadLine /\ Len(toks) >= 1 /\ toks[1] = <<<<116, 105, 109, 101>>, c.in>>
-\* with source on: after dropping the source token (whatever file name it quotes) the rest is as without it
+\* with source on: the first token after the level is source=<last directory>/<file>:<line> of the CALLER (c.in; the call
+\* sites are in harness/internal/sites and textline/weird_source.go, one per output method of Logger), and the rest of the
+\* line is as without it
 SourceOK(c) == LET all == Tokenize(c.tail)
-                   toks == DropSource(all, TRUE) IN
-  all # toks /\ toks = (IF c.pos = "plain" THEN <<MsgM, <<K1, V1>>>>
-                        ELSE <<MsgM, <<<<119>>, <<49>>>>, <<<<103, 46>> \o K1, V1>>>>)
+                   toks == DropSource(all, TRUE)
+                   kv == IF c.kv THEN << <<K1, V1>> >> ELSE <<>>
+                   gkv == IF c.kv THEN << <<<<103, 46>> \o K1, V1>> >> ELSE <<>> IN
+  /\ all # toks /\ all[1] = <<<<115, 111, 117, 114, 99, 101>>, c.in>>
+  /\ toks = (IF c.pos = "plain" THEN <<MsgM>> \o kv ELSE <<MsgM, <<<<119>>, <<49>>>> >> \o gkv)
 
 JudgeOK == LET c == Cases[i] IN
    (c.onewrite /\ c.head /\ CASE c.mode = "struct" -> StructOK(c) [] c.mode = "values" -> ValuesOK(c) [] c.mode = "time" -> TimeOK(c)
